@@ -729,6 +729,24 @@ func runApiCase(c *ApiCase) error {
 			}
 		case "run":
 			if !prepared {
+				// nothing has been compiled: whatever Execute does, Run "fails
+				// exactly when it does"
+				res := r.Execute(nil)
+				var rerr error
+				var pan interface{}
+				func() {
+					defer func() { pan = recover() }()
+					_, rerr = r.E.Run(nil)
+				}()
+				if res.Panic != nil || pan != nil {
+					return fmt.Errorf("step %d: a run before Prepare panicked into the caller: Execute %v, Run %v", i, res.Panic, pan)
+				}
+				if (res.Err == nil) != (rerr == nil) {
+					return fmt.Errorf("step %d: before Prepare, Execute err=%v but Run err=%v", i, res.Err, rerr)
+				}
+				if res.Err == nil {
+					return nil // both front ends prepare by themselves: the bookkeeping below does not apply
+				}
 				continue
 			}
 			res := r.Execute(nil)
